@@ -196,7 +196,10 @@ func mutatePackets(cp *corpus, data []byte, r *rand.Rand, depth int) ([]byte, st
 		return encodeSeq(ps[:i], nil), "trunc-boundary"
 	case 9: // truncate inside packet i at a random / first / last byte
 		full := encodeSeq(ps[:i+1], nil)
-		plen := len(encodeDefault(*p))
+		plen := len(full) - len(encodeSeq(ps[:i], nil))
+		if plen < 1 {
+			return full, "trunc-mid"
+		}
 		cut := len(full) - plen + r.IntN(plen)
 		switch r.IntN(4) {
 		case 0:
@@ -236,7 +239,11 @@ func mutatePackets(cp *corpus, data []byte, r *rand.Rand, depth int) ([]byte, st
 		}
 		b := encodeSeq(ps, nil)
 		for k := 0; k < d; k++ {
-			b = encodeDefault(compressPkt(byte(k%3), b))
+			if k == 0 && r.IntN(2) == 0 {
+				b = encodeDefault(compressPkt(byte(1+r.IntN(2)), b))
+			} else {
+				b = encodeDefault(storedPkt(byte(1+k%2), b))
+			}
 		}
 		return b, "nest-compress:" + nestBucket(d)
 	case 16: // compressed packet: mutate the inner packets
@@ -249,7 +256,11 @@ func mutatePackets(cp *corpus, data []byte, r *rand.Rand, depth int) ([]byte, st
 						if algo == 3 || algo == 0 {
 							algo = 2
 						}
-						ps[k] = compressPkt(algo, mi)
+						if r.IntN(3) > 0 {
+							ps[k] = storedPkt(1+algo%2, mi)
+						} else {
+							ps[k] = compressPkt(algo, mi)
+						}
 						return tail(encodeSeq(ps, nil)), "in-compressed:" + op
 					}
 				}
@@ -677,7 +688,10 @@ func mutateSig(cp *corpus, body []byte, r *rand.Rand) ([]byte, string) {
 		s.Hashed, s.Unhashed = encSubpkts(h2, nil), encSubpkts(u2, nil)
 		return s.bytes(0, 0), name
 	case 10: // embedded signature nesting
-		d := mon.Pick(r, []int{1, 2, 3, 10, 100, 1000, 4000})
+		d := mon.Pick(r, []int{1, 2, 3, 5, 10, 30, 100})
+		if r.IntN(25) == 0 {
+			d = mon.Pick(r, []int{1000, 4000})
+		}
 		inner := s.bytes(0, 0)
 		if len(inner) > 60 {
 			// keep the nest small: minimal v4 signature body
